@@ -87,6 +87,12 @@ def gen(tier, rnd):
               'audio/*; q=0.2, audio/basic', 'text/html,  image/png', ',', 'text/html;q=0.5,', 'text/html, image/png,']:
         for k in range(len(t) + 1): L.append('hdr Accept ' + hx(t[:k]))
     times = [0, 1, 59, 60, 3599, 86399, 86400, 784111777, 951782400, 951868800, 1078012800, 2 ** 31 - 1, 2 ** 31, 4102444800, 9223372035] + [rnd.randrange(0, 4102444800) for _ in range(n // 2)]
+    # calendar edges: the days around every new year, the end of February, the last day of the year
+    import calendar
+    for y in list(range(1970, 2101, 3 if tier == 'quick' else 1)) + [2000, 2024, 2025, 2026, 2038, 2100]:
+        ny = calendar.timegm((y, 1, 1, 0, 0, 0))
+        times += [max(0, ny + d * 86400 + rnd.randrange(86400)) for d in (-3, -2, -1, 0, 1, 2, 3)]
+        times += [calendar.timegm((y, 2, 28, 23, 59, 59)), calendar.timegm((y, 3, 1, 0, 0, 0)), calendar.timegm((y, 12, 31, 23, 59, 59))]
     for t in times: L.append('hdrw Date %d' % t)
     for t in ['Sun, 06 Nov 1994 08:49:37 GMT', 'Sunday, 06-Nov-94 08:49:37 GMT', 'Sun Nov  6 08:49:37 1994', 'Sun, 06 Nov 1994 08:49:37', 'garbage', '', 'Sun, 31 Feb 1994 08:49:37 GMT']:
         L.append('hdr Date ' + hx(t))
